@@ -6,6 +6,11 @@ R18.2 matrix element order: writer loop nest + written element ↔ reader compre
 R18.3 column positions: numeric fields of the writer's format ↔ reader's split()[a:b].
 R18.4 npz directory: every essential property is written and consumed; R-matrix file names agree; lattice and centres
       are loaded before the R-vectors that need them; directory listing is used order-insensitively.
+R18.5 point-group serialisation: keys written by as_dict ↔ keys consumed by the constructors.
+
+All rules work on the functions with their private helpers (and local closures) inlined and finite loops over slices
+unrolled; names are resolved through their definitions and small integer / string expressions are folded, so the rules
+see what is written / read, not how the code is laid out.
 """
 from __future__ import annotations
 
@@ -14,25 +19,31 @@ import re
 from typing import Dict, List, Optional, Tuple
 
 from ..index import AnalysisError, call_name, dotted, norm, norm1, names_in
+from ..sem import Sem, dict_entries, inline_private_helpers, return_cases, seq_segments, unroll_finite_loops
 from ..taint import OrderTaint
-from .common import calls, enclosing, enclosing_all, fctx, is_name, method_calls, stmts
+from .common import calls, const_of, enclosing, enclosing_all, fctx, is_name, kwarg, method_calls, pmatch, stmts
 
 LEVEL = "other"
 EXPLANATION = (
-    "Writer/reader agreement decided on syntax: (R18.1) the slice expressions of write_WCC_WT_format / write_hr_file and "
-    "read_WCC_WT_format are constant-folded over n = 0..9 (slice lengths are 2-periodic in n, so both parities are "
-    "covered) — every slice assignment must have equal lengths on both sides and the reader must invert the writer; "
-    "(R18.2) the writer's iteration order and written element index are composed with the reader's nested comprehension "
-    "and transpose; (R18.3) the position of the first numeric field in the writer's format equals the reader's split "
-    "slice; (R18.4) the property lists of to_npz/load_npz are folded from the class bodies and compared, R-matrix names go "
-    "through one helper on both sides, and the directory listing in load_npz has no order-dependent use. Not decided: "
-    "numeric precision of the text formats, equality of bands.")
+    "Writer/reader agreement decided on the resolved syntax (helpers inlined, names substituted, integer and string "
+    "expressions folded): (R18.1) the slice expressions of write_WCC_WT_format / write_hr_file and read_WCC_WT_format are "
+    "evaluated over n = 0..9 (slice lengths are 2-periodic in n, so both parities are covered) — every slice assignment "
+    "must have equal lengths on both sides and the reader must invert the writer; (R18.2) the writer's iteration order and "
+    "written element index are composed with the reader's nested comprehension and the transposes applied on the way to "
+    "the stored matrix; (R18.3) the position of the first numeric field in the writer's format equals the reader's split "
+    "slice; (R18.4) the property lists of to_npz/load_npz are folded from the class bodies and compared, the file-name "
+    "prefix returned by _R_mat_npz_filename is folded and compared with the glob pattern / prefix strip / filter of the "
+    "loader, the load order is read from the concatenation normal form of the loop's iterable, and the directory listing "
+    "in load_npz has no order-dependent use; (R18.5) the dict entries of PointGroup.as_dict / PointSymmetry.as_dict are "
+    "matched with what the constructors read. Not decided: numeric precision of the text formats, equality of bands.")
 
 HR = "wannierberri/system/system_hr.py"
 TB = "wannierberri/system/system_tb.py"
 SR = "wannierberri/system/system_R.py"
+PS = "wannierberri/symmetry/point_symmetry.py"
 
 
+# ------------------------------------------------------------------------------------------------ small evaluators
 def _eval_int(e: ast.AST, n: int, seqnames) -> int:
     if isinstance(e, ast.Constant) and isinstance(e.value, int):
         return e.value
@@ -68,66 +79,177 @@ def _slice_indices(sl: ast.AST, n: int, seqnames, du=None, at=None) -> List[int]
     return list(range(n))[slice(ev(sl.lower), ev(sl.upper), ev(sl.step))]
 
 
-def _wt_writer_slices(f) -> List[List[ast.AST]]:
-    """The slices of the centre array iterated by consecutive `for i in data[S]:` loops that write lines."""
+def fold_str(e: ast.AST, env: Optional[Dict[str, object]] = None) -> Optional[List[object]]:
+    """String expression → list of pieces (str constants merged; ('sym', text) for non-constant parts); None if not a string
+    concatenation.  `env` gives the truth value of names used as IfExp tests."""
+    env = env or {}
+
+    def go(x: ast.AST) -> Optional[List[object]]:
+        if isinstance(x, ast.Constant) and isinstance(x.value, str):
+            return [x.value]
+        if isinstance(x, ast.BinOp) and isinstance(x.op, ast.Add):
+            l, r = go(x.left), go(x.right)
+            return None if l is None or r is None else l + r
+        if isinstance(x, ast.JoinedStr):
+            out: List[object] = []
+            for v in x.values:
+                if isinstance(v, ast.Constant):
+                    out.append(str(v.value))
+                elif isinstance(v, ast.FormattedValue) and v.format_spec is None and v.conversion == -1:
+                    sub = go(v.value)
+                    out += sub if sub is not None else [("sym", norm(v.value))]
+                else:
+                    return None
+            return out
+        if isinstance(x, ast.IfExp):
+            t = x.test
+            pol = True
+            while isinstance(t, ast.UnaryOp) and isinstance(t.op, ast.Not):
+                t, pol = t.operand, not pol
+            if isinstance(t, ast.Name) and t.id in env:
+                return go(x.body if bool(env[t.id]) is pol else x.orelse)
+            return None
+        if isinstance(x, (ast.Name, ast.Attribute, ast.Subscript, ast.Call)):
+            return [("sym", norm(x))]
+        return None
+
+    p = go(e)
+    if p is None:
+        return None
+    merged: List[object] = []
+    for x in p:
+        if isinstance(x, str) and merged and isinstance(merged[-1], str):
+            merged[-1] += x
+        elif x != "":
+            merged.append(x)
+    return merged
+
+
+def fold_int(S: Sem, e: ast.AST, at: int) -> Optional[int]:
+    """Small integer expression (constants, + − *, len of a constant string) after resolution → int."""
+    r = S.resolve(e, at)
+
+    def go(x: ast.AST) -> Optional[int]:
+        if isinstance(x, ast.Constant) and isinstance(x.value, int) and not isinstance(x.value, bool):
+            return x.value
+        if isinstance(x, ast.UnaryOp) and isinstance(x.op, (ast.USub, ast.UAdd)):
+            v = go(x.operand)
+            return None if v is None else (-v if isinstance(x.op, ast.USub) else v)
+        if isinstance(x, ast.BinOp) and isinstance(x.op, (ast.Add, ast.Sub, ast.Mult)):
+            a, b = go(x.left), go(x.right)
+            if a is None or b is None:
+                return None
+            return a + b if isinstance(x.op, ast.Add) else a - b if isinstance(x.op, ast.Sub) else a * b
+        if isinstance(x, ast.Call) and call_name(x) == "len" and len(x.args) == 1:
+            p = fold_str(x.args[0])
+            if p is not None and all(isinstance(y, str) for y in p):
+                return len("".join(p))
+        return None
+    return go(r)
+
+
+def _prep(idx, f, slices: bool = False, skip=()):
+    g = inline_private_helpers(idx, f, skip=set(skip))
+    if slices:
+        g = unroll_finite_loops(idx, g, want=lambda els: any(isinstance(x, ast.Subscript) and isinstance(x.slice, ast.Slice) for x in els))
+    return g, Sem(idx, g)
+
+
+# ------------------------------------------------------------------------------------------------ R18.1 helpers
+def _wt_writer_loops(idx, f) -> Tuple[object, List[Tuple[ast.For, ast.Subscript]]]:
+    """Consecutive `for row in X[S]:` loops (after inlining/unrolling/resolution) that write lines."""
+    g, S = _prep(idx, f, slices=True)
     out = []
-    for s in stmts(f.node):
-        if isinstance(s, ast.For) and isinstance(s.iter, ast.Subscript) and isinstance(s.iter.slice, ast.Slice) \
-                and method_calls(s, "write"):
-            out.append(s)
-    return out
+    for s in stmts(g.node):
+        if isinstance(s, ast.For) and method_calls(s, "write"):
+            it = S.resolve(s.iter, S.cfg.node(s))
+            if isinstance(it, ast.Subscript) and isinstance(it.slice, ast.Slice):
+                out.append((s, it))
+    return g, out
 
 
-def _elem_and_order(root: ast.AST, pm, arrname_re=r"^_?(ham|aa|AA|Ham)\w*$"):
-    """Find `X[a, b]` (two Name indices) in a written expression; return (a, b, iteration order outer→inner, node)."""
-    res = []
-    for n in ast.walk(root):
-        if isinstance(n, ast.Subscript) and isinstance(n.slice, ast.Tuple) and len(n.slice.elts) == 2 \
-                and all(isinstance(x, ast.Name) for x in n.slice.elts) and isinstance(n.value, ast.Name) \
-                and re.match(arrname_re, n.value.id):
-            a, b = n.slice.elts[0].id, n.slice.elts[1].id
-            order: List[str] = []
-            # comprehension generators enclosing n (first generator = outer)
-            x = n
-            comp = None
-            while x in pm:
-                x = pm[x]
-                if isinstance(x, (ast.GeneratorExp, ast.ListComp)):
-                    gens = [g.target.id for g in x.generators if isinstance(g.target, ast.Name)]
-                    if a in gens and b in gens:
-                        comp = gens
-                        break
-            if comp is not None:
-                order = [g for g in comp if g in (a, b)]
-            else:
-                loops = [fl.target.id for fl in reversed(enclosing_all(pm, n, ast.For)) if isinstance(fl.target, ast.Name)]
-                order = [g for g in loops if g in (a, b)]
-            if len(order) == 2:
-                res.append((a, b, order, n))
+# ------------------------------------------------------------------------------------------------ R18.2/3 helpers
+def _written_elements(g, S: Sem):
+    """`X[a, b]` inside the argument of a `.write(...)` call with a, b bound by the enclosing loops / generators →
+    {X: (a, b, iteration order outer→inner, node, write call)}."""
+    pm = S.pm
+    res: Dict[str, tuple] = {}
+    for wc in method_calls(g.node, "write"):
+        for n in ast.walk(wc):
+            if isinstance(n, ast.Subscript) and isinstance(n.slice, ast.Tuple) and len(n.slice.elts) == 2 \
+                    and all(isinstance(x, ast.Name) for x in n.slice.elts) and isinstance(n.value, ast.Name):
+                a, b = n.slice.elts[0].id, n.slice.elts[1].id
+                order: List[str] = []
+                x: ast.AST = n
+                comp = None
+                while x in pm:
+                    x = pm[x]
+                    if isinstance(x, (ast.GeneratorExp, ast.ListComp)):
+                        gens = [g_.target.id for g_ in x.generators if isinstance(g_.target, ast.Name)]
+                        if a in gens and b in gens:
+                            comp = gens
+                            break
+                if comp is not None:
+                    order = [v for v in comp if v in (a, b)]
+                else:
+                    loops = [fl.target.id for fl in reversed(enclosing_all(pm, n, ast.For)) if isinstance(fl.target, ast.Name)]
+                    order = [v for v in loops if v in (a, b)]
+                if len(order) == 2 and a != b:
+                    res.setdefault(n.value.id, (a, b, order, n, wc))
     return res
 
 
-def _reader_blocks(f):
-    """Nested-comprehension reads `[[f.readline().split()[a:b] for _ in range(N)] for _ in range(N)]`."""
-    cfg, du, pm = fctx(f)
+def _is_T102(c: ast.AST) -> bool:
+    """a transposition of the first two axes: .transpose((1, 0, 2)) / .transpose(1, 0, 2) / np.transpose(x, (1, 0, 2)) /
+    .swapaxes(0, 1) / np.swapaxes(x, 0, 1)"""
+    if not isinstance(c, ast.Call):
+        return False
+    cn = call_name(c)
+    args = c.args
+    if isinstance(c.func, ast.Attribute) and c.func.attr == "transpose" and cn not in ("np.transpose", "numpy.transpose"):
+        t = norm(args[0]) if len(args) == 1 else ", ".join(norm(a) for a in args)
+        return t.replace("(", "").replace(")", "").replace("[", "").replace("]", "").replace(" ", "") in ("1,0,2", "1,0")
+    if cn in ("np.transpose", "numpy.transpose") and len(args) == 2:
+        return norm(args[1]).replace("(", "").replace(")", "").replace("[", "").replace("]", "").replace(" ", "") in ("1,0,2", "1,0")
+    if isinstance(c.func, ast.Attribute) and c.func.attr == "swapaxes" and cn not in ("np.swapaxes", "numpy.swapaxes") and len(args) == 2:
+        return sorted(norm(a) for a in args) == ["0", "1"]
+    if cn in ("np.swapaxes", "numpy.swapaxes") and len(args) == 3:
+        return sorted(norm(a) for a in args[1:]) == ["0", "1"]
+    return False
+
+
+def _reader_blocks(g, S: Sem):
+    """Nested-comprehension reads `[[f.readline().split()[a:b] for _ in range(N)] for _ in range(N)]` with the folded column
+    slice and the parity of first-two-axes transpositions applied before the block is stored into an R-indexed array."""
+    pm = S.pm
     out = []
-    for n in ast.walk(f.node):
+    for n in ast.walk(g.node):
         if isinstance(n, ast.ListComp) and isinstance(n.elt, ast.ListComp) and isinstance(n.elt.elt, ast.Subscript) \
                 and "readline().split()" in norm(n.elt.elt.value) and isinstance(n.elt.elt.slice, ast.Slice):
             sl = n.elt.elt.slice
-            lo, hi = sl.lower.value, sl.upper.value
             st = enclosing(pm, n, ast.stmt)
-            # transposition (1,0,2) applied in this statement or to the assigned name in the following statements
-            txt = norm(st)
-            transposed = "transpose((1, 0, 2))" in txt
-            if not transposed and isinstance(st, ast.Assign) and isinstance(st.targets[0], ast.Name):
-                nm = st.targets[0].id
-                body = pm[st].body if hasattr(pm[st], "body") else []
-                if st in body:
-                    for nxt in body[body.index(st) + 1: body.index(st) + 3]:
-                        if nm in names_in(nxt) and "transpose((1, 0, 2))" in norm(nxt):
-                            transposed = True
-            out.append({"lo": lo, "hi": hi, "transposed": transposed, "stmt": st})
+            at = S.cfg.node(st)
+            lo = fold_int(S, sl.lower, at) if sl.lower is not None else 0
+            hi = fold_int(S, sl.upper, at) if sl.upper is not None else None
+            if lo is None or hi is None:
+                raise AnalysisError(f"{g.short}: cannot fold the column slice `{norm1(sl)}` of a block read")
+            # follow the block to the statement that stores it into a subscripted target, counting transpositions
+            ntr = sum(1 for c in ast.walk(st) if _is_T102(c) and any(x is n for x in ast.walk(c)))
+            cur = st
+            for _ in range(6):
+                if not (isinstance(cur, ast.Assign) and isinstance(cur.targets[0], ast.Name)):
+                    break
+                nm = cur.targets[0].id
+                par = pm.get(cur)
+                body = next((b for b in (getattr(par, "body", None), getattr(par, "orelse", None)) if isinstance(b, list) and cur in b), None)
+                if body is None:
+                    break
+                nxt = next((x for x in body[body.index(cur) + 1:] if nm in names_in(x)), None)
+                if nxt is None:
+                    break
+                ntr += sum(1 for c in ast.walk(nxt) if _is_T102(c) and nm in names_in(c))
+                cur = nxt
+            out.append({"lo": lo, "hi": hi, "transposed": ntr % 2 == 1, "stmt": st})
     return out
 
 
@@ -152,32 +274,36 @@ def run(ctx) -> None:
     idx = ctx.index
 
     # ---------------------------------------------------------------- R18.1
-    r1 = ctx.rule("R18.1", "Wannier-centre WT file: reader inverts writer for every number of centres", min_instances=3)
-    rd = idx.function(HR, "read_WCC_WT_format")
-    rcfg, rdu, rpm = fctx(rd)
+    r1 = ctx.rule("R18.1", "Wannier-centre WT file: reader inverts writer for every number of centres", min_instances=2)
+    rd, RS = _prep(idx, idx.function(HR, "read_WCC_WT_format"))
+    rcfg, rdu = RS.cfg, RS.du
     writers = [idx.function(HR, "write_WCC_WT_format"), idx.function(HR, "write_hr_file")]
     wslices = None
-    for w in writers:
-        loops = _wt_writer_slices(w)
+    for w0 in writers:
+        w, loops = _wt_writer_loops(idx, w0)
         if len(loops) != 2:
-            if w.name == "write_hr_file" and not loops:
+            if w0.name == "write_hr_file" and not loops:
                 continue
-            raise AnalysisError(f"{w.short}: expected two `for row in data[slice]` write loops, found {len(loops)}")
-        r1.instance(f"{w.short}: rows {norm1(loops[0].iter)} then {norm1(loops[1].iter)}")
-        sl = [l.iter.slice for l in loops]
+            raise AnalysisError(f"{w0.short}: expected two `for row in data[slice]` write loops, found {len(loops)}")
+        r1.instance(f"{w0.short}: rows {norm1(loops[0][1])} then {norm1(loops[1][1])}")
+        r1.check(norm(loops[0][1].value) == norm(loops[1][1].value), f"{w0.name}: both loops run over the same centre array", w, loops[1][0],
+                 f"the two write loops iterate over different arrays (`{norm1(loops[0][1].value)}` / `{norm1(loops[1][1].value)}`)")
+        sl = [it.slice for _, it in loops]
         # writer must emit every row exactly once
         for n in range(0, 10):
             a = _slice_indices(sl[0], n, ())
             b = _slice_indices(sl[1], n, ())
             if sorted(a + b) != list(range(n)):
-                r1.violation(w, loops[0], f"for n={n} centres the writer emits rows {a}+{b}: not every centre exactly once")
+                r1.violation(w, loops[0][0], f"for n={n} centres the writer emits rows {a}+{b}: not every centre exactly once")
                 break
         else:
-            r1.ok(f"{w.short}: the two loops emit every centre exactly once (n=0..9)")
+            r1.ok(f"{w0.short}: the two loops emit every centre exactly once (n=0..9)")
         if wslices is None:
             wslices = sl
         elif [norm(x) for x in wslices] != [norm(x) for x in sl]:
-            r1.violation(w, loops[0], "write_hr_file's inline copy de-interleaves differently from write_WCC_WT_format")
+            r1.violation(w, loops[0][0], "write_hr_file's inline copy de-interleaves differently from write_WCC_WT_format")
+    if wslices is None:
+        raise AnalysisError("no Wannier-centre writer loops found")
     # reader
     asg = [s for s in stmts(rd.node) if isinstance(s, ast.Assign) and isinstance(s.targets[0], ast.Subscript)
            and isinstance(s.targets[0].slice, ast.Slice) and isinstance(s.value, ast.Subscript)
@@ -212,24 +338,20 @@ def run(ctx) -> None:
     # ---------------------------------------------------------------- R18.2 / R18.3
     r2 = ctx.rule("R18.2", "matrix element order: writer nest/index ↔ reader nest/transpose", min_instances=3)
     r3 = ctx.rule("R18.3", "numeric columns: writer format ↔ reader split slice", min_instances=3)
-    wtb = idx.function(TB, "write_tb_file")
-    rtb = idx.function(TB, "get_system_tb")
-    whr = idx.function(HR, "write_hr_file")
-    rhr = idx.function(HR, "get_system_hr")
-    for w, r, label, nblocks in ((wtb, rtb, "_tb.dat", 2), (whr, rhr, "_hr.dat", 1)):
-        wpm = fctx(w)[2]
-        elems = _elem_and_order(w.node, wpm)
-        # one representative per written array
-        by_arr: Dict[str, tuple] = {}
-        for a, b, order, n in elems:
-            by_arr.setdefault(n.value.id, (a, b, order, n))
-        blocks = _reader_blocks(r)
+    wtb, WTS = _prep(idx, idx.function(TB, "write_tb_file"))
+    rtb, RTS = _prep(idx, idx.function(TB, "get_system_tb"))
+    whr, WHS = _prep(idx, idx.function(HR, "write_hr_file"))
+    rhr, RHS = _prep(idx, idx.function(HR, "get_system_hr"))
+    for (w, WS_), (r, RS_), label, nblocks in (((wtb, WTS), (rtb, RTS), "_tb.dat", 2), ((whr, WHS), (rhr, RHS), "_hr.dat", 1)):
+        wpm = WS_.pm
+        by_arr = _written_elements(w, WS_)
+        blocks = _reader_blocks(r, RS_)
         if len(by_arr) != nblocks or len(blocks) < nblocks:
             raise AnalysisError(f"{label}: expected {nblocks} written array(s) / read block(s), found {len(by_arr)} / {len(blocks)}")
         blocks.sort(key=lambda b_: b_["stmt"].lineno)
         warr = sorted(by_arr.items(), key=lambda kv: kv[1][3].lineno)
         pairs = [(warr[0], blocks[0])] + [(warr[-1], b_) for b_ in blocks[1:] if len(warr) > 1]
-        for (arr, (a, b, order, n)), blk in pairs:
+        for (arr, (a, b, order, n, wc)), blk in pairs:
             r2.instance(f"{label}: {w.qualname} writes {arr}[{a}, {b}] in order {order}; {r.qualname} reads {norm1(blk['stmt'], 60)}")
             swapped = (order == [b, a])  # outer loop runs over the second index
             r2.check(swapped == blk["transposed"],
@@ -253,7 +375,7 @@ def run(ctx) -> None:
                 # "<prefix f-string>" + " ".join(f"{a.real} {a.imag}" for a in X[m, n]) + "\n"
                 x = n
                 while x in wpm and not isinstance(wpm[x], (ast.GeneratorExp, ast.ListComp)) or \
-                        (x in wpm and isinstance(wpm[x], ast.GeneratorExp) and any(x2 is n for g in wpm[x].generators for x2 in ast.walk(g.iter))):
+                        (x in wpm and isinstance(wpm[x], ast.GeneratorExp) and any(x2 is n for g_ in wpm[x].generators for x2 in ast.walk(g_.iter))):
                     x = wpm[x]
                     if isinstance(x, ast.BinOp) and isinstance(x.op, ast.Add):
                         left = x
@@ -276,71 +398,185 @@ def run(ctx) -> None:
                      f"{label}/{arr}: numeric fields at [{first}:{first + count}] = reader slice [{blk['lo']}:{blk['hi']}]",
                      r, blk["stmt"], f"{label}: the writer puts the numeric fields of {arr} at columns [{first}:{first + count}] "
                      f"but the reader takes split()[{blk['lo']}:{blk['hi']}]")
-    # normalisation: reader divides by Ndegen, writer multiplies by Ndegen (=1)
-    for w, label in ((wtb, "_tb.dat"), (whr, "_hr.dat")):
-        t = norm(w.node)
-        r2.check("Ndegen = np.ones(" in t, f"{label}: degeneracy weights written as ones (reader divides by them)", w, w.node,
-                 f"{label}: the writer's Ndegen is not all ones while the matrices are stored already weighted",
-                 stmt="Ndegen")
+    # normalisation: the reader divides by the degeneracies it reads; the writer stores matrices already weighted, so the
+    # degeneracies it writes (and multiplies with) must be all ones
+    for (w, WS_), label in (((wtb, WTS), "_tb.dat"), ((whr, WHS), "_hr.dat")):
+        ones = {s.targets[0].id for s in stmts(w.node) if isinstance(s, ast.Assign) and isinstance(s.targets[0], ast.Name)
+                and isinstance(s.value, ast.Call) and call_name(s.value) in ("np.ones", "numpy.ones")}
+        mult = []
+        for n in ast.walk(w.node):
+            if isinstance(n, ast.BinOp) and isinstance(n.op, ast.Mult):
+                for x, y in ((n.left, n.right), (n.right, n.left)):
+                    if isinstance(y, ast.Subscript) and isinstance(y.value, ast.Name) and isinstance(x, ast.Subscript) and norm(x.slice) == norm(y.slice) \
+                            and any(t in norm(x.value) for t in ("Ham_R", "AA", "get_R_mat")):
+                        mult.append(y.value.id)
+        r2.check(bool(ones) and all(m in ones for m in mult), f"{label}: degeneracy weights written as ones (reader divides by them)", w, w.node,
+                 f"{label}: the writer's degeneracy weights {sorted(set(mult)) or ''} are not an all-ones array while the matrices are stored already "
+                 f"weighted", stmt="Ndegen")
 
     # ---------------------------------------------------------------- R18.4
     r4 = ctx.rule("R18.4", "npz directory: written ⊇ essential; loaded before use; names agree", min_instances=4)
-    to_npz = idx.function(SR, "System_R.to_npz")
-    load = idx.function(SR, "System_R.load_npz")
+    to_npz, TS = _prep(idx, idx.function(SR, "System_R.to_npz"), skip=("_R_mat_npz_filename",))
+    load, LS = _prep(idx, idx.function(SR, "System_R.load_npz"), skip=("_R_mat_npz_filename",))
     ess = idx.function(SR, "System_R.essential_properties")
     lst = [s.value for s in stmts(ess.node) if isinstance(s, ast.Return)]
     if not lst or not isinstance(lst[0], ast.List):
         raise AnalysisError("System_R.essential_properties is not a literal list")
     essential = [e.value for e in lst[0].elts]
     r4.instance(f"{ess.short}: {essential}")
-    tw, tl = norm(to_npz.node), norm(load.node)
-    r4.check("self.essential_properties" in tw and "for key in properties" in tw and "key + '.npz'" in tw,
-             "to_npz writes one <key>.npz per essential property", to_npz, to_npz.node,
+    TS.inline_helpers = False
+    LS.inline_helpers = False
+
+    def save_calls(fn):
+        return [c for c in ast.walk(getattr(fn, "node", fn)) if isinstance(c, ast.Call) and call_name(c) in ("np.savez", "np.savez_compressed", "numpy.savez", "numpy.savez_compressed")]
+
+    # (a) one <key>.npz per property of a loop over (a list containing) self.essential_properties
+    prop_loops = []
+    for lp in [s for s in stmts(to_npz.node) if isinstance(s, ast.For) and isinstance(s.target, ast.Name)]:
+        k = lp.target.id
+        sv = [c for c in save_calls(lp) if c.args]
+        paths = [TS.rnorm(c.args[0], TS.du.node_of_expr(c)) for c in sv]
+        if sv and all(re.search(rf"\b{k} \+ '\.npz'", p_) for p_ in paths):
+            it = TS.rnorm(lp.iter, TS.cfg.node(lp))
+            prop_loops.append((lp, it, sv))
+    ess_loops = [x for x in prop_loops if "self.essential_properties" in x[1]]
+    r4.check(len(ess_loops) == 1, "to_npz writes one <key>.npz per essential property", to_npz, to_npz.node,
              "to_npz no longer writes every essential property to <key>.npz", stmt="to_npz properties loop")
-    special_w = {"iRvec": "self.rvec.iRvec", "pointgroup": "val.as_dict()", "cell": "**val"}
-    for k, frag in special_w.items():
-        if k in essential or k == "cell":
-            r4.check(frag in tw, f"to_npz special case {k}", to_npz, to_npz.node, f"to_npz lost the special case for `{k}`",
-                     stmt=f"to_npz {k}")
+    if ess_loops:
+        lp, it, sv = ess_loops[0]
+        vals = []
+        for c in sv:
+            at_ = TS.du.node_of_expr(c)
+            for a in c.args[1:]:
+                vals += [norm(x) for x in TS.alternatives(a, at_)]
+            for kw_ in c.keywords:
+                if kw_.arg is None:
+                    vals += ["**" + norm(x) for x in TS.alternatives(kw_.value, at_)]
+        txt_loop = norm(lp)
+        if "iRvec" in essential:
+            r4.check(any("self.rvec.iRvec" in v for v in vals) and "'iRvec'" in txt_loop, "to_npz special case iRvec", to_npz, lp,
+                     "to_npz lost the special case for `iRvec` (the R-vector list lives in self.rvec)", stmt="to_npz iRvec")
+        if "pointgroup" in essential:
+            r4.check(any(v.startswith("**") and v.endswith(".as_dict()") for v in vals) and "'pointgroup'" in txt_loop, "to_npz special case pointgroup",
+                     to_npz, lp, "to_npz lost the special case for `pointgroup` (saved through as_dict)", stmt="to_npz pointgroup")
+        r4.check(any(v.startswith("**") and not v.endswith(".as_dict()") for v in vals) and "'cell'" in txt_loop, "to_npz special case cell", to_npz, lp,
+                 "to_npz lost the special case for `cell` (a dict saved as keyword arrays)", stmt="to_npz cell")
     for need in ("real_lattice", "wannier_centers_cart", "iRvec"):
         r4.check(need in essential, f"`{need}` is essential (needed to rebuild the R-vectors)", ess, lst[0],
                  f"`{need}` is no longer saved by default: load_npz cannot rebuild the system", stmt=f"essential {need}")
-    # load order: lattice and centres first
-    m = re.search(r"properties = \[([^\]]*)\] \+ properties", tl)
-    first = [x.strip().strip("'\"") for x in m.group(1).split(",")] if m else []
+
+    # (b) load order: lattice and centres first
+    load_loops = []
+    for lp in [s for s in stmts(load.node) if isinstance(s, ast.For) and isinstance(s.target, ast.Name)]:
+        k = lp.target.id
+        lds = [c for c in ast.walk(lp) if isinstance(c, ast.Call) and call_name(c) in ("np.load", "numpy.load") and c.args]
+        if lds and all(re.search(rf"\b{k} \+ '\.npz'", LS.rnorm(c.args[0], LS.du.node_of_expr(c))) for c in lds):
+            load_loops.append(lp)
+    if len(load_loops) != 1:
+        raise AnalysisError(f"load_npz: expected one loop loading <key>.npz files, found {len(load_loops)}")
+    lp = load_loops[0]
+    it = lp.iter
+    while isinstance(it, ast.Call) and call_name(it) in ("dict.fromkeys", "list", "tuple", "iter") and len(it.args) == 1:
+        it = it.args[0]
+    segs = seq_segments(LS, it, LS.cfg.node(lp))
+    first: List[str] = []
+    if segs is not None:
+        for kind, x, _a in segs:
+            if kind == "el" and isinstance(x, ast.Constant) and isinstance(x.value, str):
+                first.append(x.value)
+            else:
+                break
     r4.instance(f"{load.short}: loads {first} first")
-    r4.check(first[:2] == ["real_lattice", "wannier_centers_cart"] or set(first) >= {"real_lattice", "wannier_centers_cart"},
-             "real_lattice and wannier_centers_cart are loaded before iRvec", load, load.node,
+    r4.check({"real_lattice", "wannier_centers_cart"} <= set(first),
+             "real_lattice and wannier_centers_cart are loaded before iRvec", load, lp,
              f"load_npz processes the files in directory order (first: {first}); building Rvectors from iRvec needs the "
              f"lattice and the centres, which may not be loaded yet", stmt="load order")
-    r4.check("Rvectors(lattice=self.real_lattice, iRvec=val, shifts_left_red=self.wannier_centers_red)" in tl,
-             "iRvec → Rvectors with the loaded lattice and centre shifts", load, load.node,
-             "load_npz no longer rebuilds Rvectors from iRvec with the centre shifts", stmt="iRvec → Rvectors")
-    r4.check("PointGroup(dictionary=a)" in tl and "setattr(self, key_loc, val)" in tl, "pointgroup/symgroup and plain arrays restored",
-             load, load.node, "load_npz no longer restores the point group / generic properties", stmt="setattr")
-    r4.check("self._R_mat_npz_filename(key)" in tw and "self._R_mat_npz_filename(key)" in tl,
-             "R-matrix file names go through _R_mat_npz_filename on both sides", load, load.node,
+    # (c) iRvec → Rvectors(lattice, iRvec, shifts)
+    rvs = [c for c in calls(lp, "Rvectors")]
+    okrv = False
+    if len(rvs) == 1:
+        a_l, a_i, a_s = kwarg(rvs[0], "lattice", 0), kwarg(rvs[0], "iRvec", 1), kwarg(rvs[0], "shifts_left_red", 2)
+        st_rv = enclosing(LS.pm, rvs[0], ast.stmt)
+        cds = [(t_, p_) for t_, p_, _ in LS.conditions(st_rv, resolve=False)]
+        okrv = a_l is not None and norm(a_l) == "self.real_lattice" and a_s is not None and norm(a_s) == "self.wannier_centers_red" and a_i is not None \
+            and any(("'iRvec'" in t_ or '"iRvec"' in t_) and p_ for t_, p_ in cds) and isinstance(st_rv, ast.Assign) and norm(st_rv.targets[0]) == "self.rvec"
+    r4.check(okrv, "iRvec → Rvectors with the loaded lattice and centre shifts", load, rvs[0] if rvs else lp,
+             "load_npz no longer rebuilds Rvectors from iRvec with the lattice and the centre shifts", stmt="iRvec → Rvectors")
+    pgc = [c for c in calls(lp, "PointGroup") if kwarg(c, "dictionary", 3) is not None]
+    sat = [c for c in ast.walk(lp) if isinstance(c, ast.Call) and call_name(c) == "setattr" and len(c.args) == 3 and norm(c.args[0]) == "self"]
+    r4.check(bool(pgc) and bool(sat), "pointgroup/symgroup and plain arrays restored",
+             load, lp, "load_npz no longer restores the point group / generic properties", stmt="setattr")
+    # (d) R-matrix file names
+    wr = [c for c in save_calls(to_npz) if c.args and "self._R_mat_npz_filename(" in TS.rnorm(c.args[0], TS.du.node_of_expr(c))]
+    rr = [c for c in ast.walk(load.node) if isinstance(c, ast.Call) and call_name(c) in ("np.load", "numpy.load") and c.args
+          and "self._R_mat_npz_filename(" in LS.rnorm(c.args[0], LS.du.node_of_expr(c))]
+    r4.check(bool(wr) and bool(rr), "R-matrix file names go through _R_mat_npz_filename on both sides", load, load.node,
              "to_npz and load_npz build R-matrix file names differently", stmt="_R_mat_npz_filename")
     fn = idx.function(SR, "System_R._R_mat_npz_filename")
-    prefix = [c.value for c in ast.walk(fn.node) if isinstance(c, ast.Constant) and isinstance(c.value, str) and c.value.startswith("_XX")]
-    r4.check(bool(prefix) and f"'{prefix[0]}*.npz'" in tl and f"[{len(prefix[0])}:]" in tl and f"startswith('{prefix[0]}')" in tl,
-             f"load_npz recognises R-matrix files by the writer's prefix {prefix}", load, load.node,
-             f"load_npz's glob/prefix-strip does not match the writer's prefix {prefix}", stmt="prefix")
+    FS = Sem(idx, fn)
+    prefix = suffix = None
+    flag = fn.params[2] if len(fn.params) > 2 else None
+    for v, cs, st_ in return_cases(FS):
+        if flag is not None and any(t_ == flag and not p_ for t_, p_ in cs):
+            continue
+        pieces = fold_str(FS.resolve(v, FS.cfg.node(st_)), {flag: True} if flag else {})
+        if pieces is not None and len(pieces) == 3 and isinstance(pieces[0], str) and isinstance(pieces[2], str) and pieces[1] == ("sym", fn.params[1]):
+            prefix, suffix = pieces[0], pieces[2]
+    if prefix is None:
+        raise AnalysisError("_R_mat_npz_filename: cannot fold the file name to <prefix> + key + <suffix>")
+    # loader: glob pattern, prefix strip, filter of the property files
+    mparam = next((p_ for p_ in load.params if p_ == "matrices"), None)
+    mdefs = [s for s in stmts(load.node) if isinstance(s, ast.Assign) and is_name(s.targets[0], mparam or "matrices")]
+    okp, why = False, "the default list of matrices is not derived from a directory listing"
+    LS.inline_helpers = True
+    if len(mdefs) == 1:
+        at_ = LS.cfg.node(mdefs[0])
+        rv = LS.resolve(mdefs[0].value, at_)
+        globs = [c for c in ast.walk(rv) if isinstance(c, ast.Call) and call_name(c) == "glob.glob" and c.args]
+        pat = None
+        if len(globs) == 1:
+            a0 = globs[0].args[0]
+            if isinstance(a0, ast.Call) and call_name(a0) == "os.path.join" and len(a0.args) == 2:
+                a0 = a0.args[1]
+            p_ = fold_str(a0)
+            pat = "".join(p_) if p_ is not None and all(isinstance(x, str) for x in p_) else None
+        strips = [s_ for s_ in ast.walk(rv) if isinstance(s_, ast.Subscript) and isinstance(s_.slice, ast.Slice) and s_.slice.lower is not None
+                  and s_.slice.upper is None and s_.slice.step is None]
+        cut = None
+        if len(strips) == 1:
+            lo = strips[0].slice.lower
+            cut = lo.value if isinstance(lo, ast.Constant) else None
+            if cut is None and isinstance(lo, ast.Call) and call_name(lo) == "len" and lo.args:
+                p2 = fold_str(lo.args[0])
+                cut = len("".join(p2)) if p2 is not None and all(isinstance(x, str) for x in p2) else None
+        okp = pat == prefix + "*" + suffix and cut == len(prefix)
+        why = f"glob pattern {pat!r}, strips {cut} characters; the writer's names are {prefix!r} + key + {suffix!r}"
+    sw = [c for c in ast.walk(load.node) if isinstance(c, ast.Call) and isinstance(c.func, ast.Attribute) and c.func.attr == "startswith" and len(c.args) == 1]
+    sw_ok = False
+    for c in sw:
+        try:
+            p3 = fold_str(LS.resolve(c.args[0], LS.du.node_of_expr(c)))
+        except AnalysisError:
+            p3 = fold_str(c.args[0])
+        if p3 is not None and p3 == [prefix]:
+            sw_ok = True
+    r4.check(okp and sw_ok, f"load_npz recognises R-matrix files by the writer's prefix {prefix!r}", load, mdefs[0] if mdefs else load.node,
+             f"load_npz's glob/prefix-strip/filter does not match the writer's file names ({why}; property filter on the prefix: {sw_ok})", stmt="prefix")
+    LS.inline_helpers = False
     check_pointgroup_serialisation(ctx)
-    lcfg, ldu, lpm = fctx(load)
-    ot = OrderTaint(load.node, ldu)
+    ot = OrderTaint(load.node, LS.du)
     for s in ot.sources:
         r4.instance(f"{load.short}: {norm1(s, 60)}")
+    r4.expect(bool(ot.sources), "directory listing located", load, load.node, "load_npz: no directory listing (glob / listdir) found")
     sk = ot.sinks()
     r4.check(not sk, "directory listings in load_npz are used order-insensitively", load,
-             enclosing(lpm, sk[0][0], ast.stmt) if sk else load.node,
+             enclosing(LS.pm, sk[0][0], ast.stmt) if sk else load.node,
              f"load_npz takes `{norm1(sk[0][0], 60)}` positionally from a directory listing" if sk else "")
 
 
 def check_pointgroup_serialisation(ctx) -> None:
     """R18.5 — PointGroup.as_dict ↔ PointGroup(dictionary=…) and PointSymmetry.as_dict ↔ PointSymmetry(**d)."""
     idx = ctx.index
-    PS = "wannierberri/symmetry/point_symmetry.py"
     r5 = ctx.rule("R18.5", "point-group serialisation: every key is written from the attribute the reader restores it to", min_instances=2)
     pg = idx.cls(PS, "PointGroup")
     ps = idx.cls(PS, "PointSymmetry")
@@ -349,44 +585,116 @@ def check_pointgroup_serialisation(ctx) -> None:
     if wd is None or ini is None:
         raise AnalysisError("PointGroup.as_dict/__init__ vanished")
     r5.instance(wd.short)
-    dcalls = [c for c in ast.walk(wd.node) if isinstance(c, ast.Call) and call_name(c) == "dict"]
-    if len(dcalls) != 1:
-        raise AnalysisError("PointGroup.as_dict: dict(...) literal not found")
-    written = {k.arg: k.value for k in dcalls[0].keywords}
+    WS = Sem(idx, wd)
+    rets = [s for s in stmts(wd.node) if isinstance(s, ast.Return) and s.value is not None]
+    if len(rets) != 1:
+        raise AnalysisError("PointGroup.as_dict: expected one return")
+    ent = dict_entries(WS, rets[0].value, WS.cfg.node(rets[0]))
+    if ent is None:
+        raise AnalysisError("PointGroup.as_dict: the returned dict is not built from displays / stores / update() the checker understands")
+    written = {e.const_key: e for e in ent if e.const_key is not None}
+    per_op = [e for e in ent if e.const_key is None]
     # reader: dictionary['key'] → constructor keyword
+    IS = Sem(idx, ini)
     reads = {}
     for c in ast.walk(ini.node):
         if isinstance(c, ast.Call) and norm(c.func) == "self.__init__":
             for k in c.keywords:
-                if isinstance(k.value, ast.Subscript) and norm(k.value.value) == "dictionary" and isinstance(k.value.slice, ast.Constant):
-                    reads[k.value.slice.value] = k.arg
-    ti = norm(ini.node)
-    r5.check("nsym = dictionary['nsym']" in ti and "nsym" in written and norm(written["nsym"]) in ("nsym", "len(self.symmetries)"),
-             "number of operations written and read under 'nsym'", wd, dcalls[0], "`nsym` is not written/read consistently", stmt="nsym")
+                v = IS.resolve(k.value, IS.du.node_of_expr(c)) if k.arg else None
+                if isinstance(v, ast.Subscript) and norm(v.value) == "dictionary" and isinstance(v.slice, ast.Constant):
+                    reads[v.slice.value] = k.arg
+    # number of operations
+    nsym_reads = [n for n in ast.walk(ini.node) if isinstance(n, ast.Subscript) and norm(n.value) == "dictionary" and const_of(n.slice) == "nsym"]
+    wn = written.get("nsym")
+    r5.check(bool(nsym_reads) and wn is not None and norm(wn.value) == "len(self.symmetries)",
+             "number of operations written and read under 'nsym'", wd, wn.node if wn is not None else wd.node, "`nsym` is not written/read consistently",
+             stmt="nsym")
     for key, param in reads.items():
-        v = written.get(key)
+        e = written.get(key)
+        v = e.value if e is not None else None
         r5.check(v is not None and norm(v) == f"self.{param}", f"key {key!r} ← self.{param} → constructor parameter {param}", wd,
-                 dcalls[0] if v is None else v,
+                 wd.node if e is None else e.node,
                  f"PointGroup.as_dict stores `{norm1(v) if v is not None else None}` under the key {key!r}, which the loader passes as "
                  f"`{param}=`: a reloaded point group gets a different {param} (operations are then applied in the wrong basis)",
                  stmt=f"{key}={norm1(v) if v is not None else None}")
     if not reads:
         raise AnalysisError("PointGroup.__init__: dictionary branch does not pass dictionary[...] to the constructor")
-    r5.check("self._symm_dict_prefix(i) + k" in norm(wd.node) and "l = self._symm_dict_prefix(i)" in ti and "k[len(l):]" in ti,
-             "per-operation keys use one prefix helper on both sides", wd, wd.node, "per-operation key prefix differs between writer and reader",
-             stmt="symm prefix")
+    # per-operation entries: key = PREFIX(i) + k for (k, v) in symmetries[i].as_dict()  ↔  k[len(PREFIX(i)):] for k startswith PREFIX(i)
+    okw, pw, wi = False, None, None
+    if len(per_op) == 1:
+        e = per_op[0]
+        if isinstance(e.key, ast.BinOp) and isinstance(e.key.op, ast.Add) and isinstance(e.key.right, ast.Name):
+            kv = e.key.right.id
+            pw = e.key.left
+            ivars = [n.id for n in ast.walk(pw) if isinstance(n, ast.Name) and n.id != "self"]
+            if len(set(ivars)) == 1:
+                wi = ivars[0]
+                okw = norm(e.value) == f"self.symmetries[{wi}].as_dict()[{kv}]"
+                if not okw and isinstance(e.value, ast.Name):
+                    for t, it in e.loops:
+                        if isinstance(t, ast.Tuple) and [norm(x) for x in t.elts] == [kv, e.value.id]:
+                            try:
+                                it_r = WS.rnorm(it, WS.du.node_of_expr(it))
+                            except AnalysisError:
+                                it_r = norm(it)
+                            okw = it_r == f"self.symmetries[{wi}].as_dict().items()"
+    rd_calls = [c for c in ast.walk(ini.node) if isinstance(c, ast.Call) and call_name(c) == "PointSymmetry" and any(k.arg is None for k in c.keywords)]
+    okr, pr = False, None
+    if len(rd_calls) == 1:
+        dv = next(k.value for k in rd_calls[0].keywords if k.arg is None)
+        re_ = dict_entries(IS, dv, IS.du.node_of_expr(rd_calls[0]))
+        if re_ is not None and len(re_) == 1:
+            e = re_[0]
+            m = pmatch(e.key, "K_[len(P_):]", {"K_", "P_"})
+            if m and m[0][0] is e.key:
+                kk, pr_txt = m[0][1]["K_"], m[0][1]["P_"]
+                pr = pr_txt
+                conds = []
+                for c in e.conds:
+                    try:
+                        conds.append(IS.rnorm(c, IS.du.node_of_expr(c)))
+                    except AnalysisError:
+                        conds.append(norm(c))
+                ri = [n.id for n in ast.walk(ast.parse(pr_txt, mode="eval")) if isinstance(n, ast.Name) and n.id != "self"]
+                rng_ok = False
+                for t, it in e.loops:
+                    if ri and norm(t) == ri[0]:
+                        try:
+                            rng_ok = IS.rnorm(it, IS.du.node_of_expr(it)) == "range(dictionary['nsym'])"
+                        except AnalysisError:
+                            rng_ok = False
+                val_ok = norm(e.value) == f"dictionary[{kk}]"
+                if not val_ok and isinstance(e.value, ast.Name):
+                    val_ok = any(isinstance(t, ast.Tuple) and [norm(x) for x in t.elts] == [kk, e.value.id] and norm(it) == "dictionary.items()" for t, it in e.loops)
+                okr = val_ok and f"{kk}.startswith({pr_txt})" in conds and len(set(ri)) == 1 and rng_ok
+    same_prefix = False
+    if okw and okr and wi is not None:
+        ri0 = [n.id for n in ast.walk(ast.parse(pr, mode="eval")) if isinstance(n, ast.Name) and n.id != "self"][0]
+        same_prefix = re.sub(rf"\b{wi}\b", "I", norm(pw)) == re.sub(rf"\b{ri0}\b", "I", pr)
+    r5.check(okw and okr and same_prefix, "per-operation keys use one prefix on both sides; entry i ↔ operation i", wd, per_op[0].node if per_op else wd.node,
+             f"per-operation key prefix / indexing differs between writer and reader (writer `{norm1(pw) if pw is not None else None}` ok={okw}; "
+             f"reader `{pr}` ok={okr})", stmt="symm prefix")
     sw = ps.methods.get("as_dict")
     si = ps.methods.get("__init__")
     r5.instance(sw.short)
-    sd = [c for c in ast.walk(sw.node) if isinstance(c, ast.Call) and call_name(c) == "dict"]
-    keys = {k.arg: norm(k.value) for k in sd[0].keywords} if sd else {}
+    SS = Sem(idx, sw)
+    srets = [s for s in stmts(sw.node) if isinstance(s, ast.Return) and s.value is not None]
+    sent = dict_entries(SS, srets[0].value, SS.cfg.node(srets[0])) if len(srets) == 1 else None
+    if sent is None or any(e.const_key is None for e in sent):
+        raise AnalysisError("PointSymmetry.as_dict: the returned dict is not a display / dict(...) with constant keys")
+    keys = {e.const_key: norm(e.value) for e in sent}
     r5.check(set(keys) <= set(si.params[1:]) and set(keys) == {"R", "TR"}, f"operation keys {sorted(keys)} are constructor parameters", sw,
-             sd[0] if sd else sw.node, f"PointSymmetry.as_dict writes {sorted(keys)} but PointSymmetry(**d) accepts {si.params[1:]}",
+             srets[0], f"PointSymmetry.as_dict writes {sorted(keys)} but PointSymmetry(**d) accepts {si.params[1:]}",
              stmt=f"keys {sorted(keys)}")
     tsi = norm(si.node)
-    r5.check(keys.get("R") == "self.R * (-1 if self.Inv else 1)" and "self.R = R * (-1 if self.Inv else 1)" in tsi
-             and "self.Inv = np.linalg.det(R) < 0" in tsi and keys.get("TR") == "self.TR",
-             "the improper sign folded into R on write is split off again on read", sw, sd[0] if sd else sw.node,
+    SIS = Sem(idx, si)
+    rstore = [s for s in stmts(si.node) if isinstance(s, ast.Assign) and norm(s.targets[0]) == "self.R"]
+    istore = [s for s in stmts(si.node) if isinstance(s, ast.Assign) and norm(s.targets[0]) == "self.Inv"]
+    fold_forms = ("self.R * (-1 if self.Inv else 1)", "(-1 if self.Inv else 1) * self.R", "-self.R if self.Inv else self.R")
+    split_forms = ("R * (-1 if self.Inv else 1)", "(-1 if self.Inv else 1) * R", "-R if self.Inv else R")
+    r5.check(keys.get("R") in fold_forms and len(rstore) == 1 and SIS.rnorm(rstore[0].value, SIS.cfg.node(rstore[0])).replace("np.linalg.det(R) < 0", "self.Inv") in split_forms
+             and len(istore) == 1 and norm(istore[0].value) == "np.linalg.det(R) < 0" and keys.get("TR") == "self.TR",
+             "the improper sign folded into R on write is split off again on read", sw, srets[0],
              f"PointSymmetry.as_dict writes R as `{keys.get('R')}` / TR as `{keys.get('TR')}`: the inversion part of an operation is not "
              f"restored by PointSymmetry.__init__", stmt=f"R={keys.get('R')}")
 
@@ -425,14 +733,28 @@ SELFTEST = [
       "fire", "R18.3"),
     V("centres no longer loaded first", SR, "properties = [\"real_lattice\", \"wannier_centers_cart\"] + properties",
       "properties = [\"real_lattice\"] + properties", "fire", "R18.4"),
+    V("forced properties appended after the directory listing", SR, "properties = [\"real_lattice\", \"wannier_centers_cart\"] + properties",
+      "properties = properties + [\"real_lattice\", \"wannier_centers_cart\"]", "fire", "R18.4"),
     V("R-matrix prefix changed on the writer side only", SR, "            return \"_XX_R_\" + key + \".npz\"", "            return \"_XX_R-\" + key + \".npz\"",
       "fire", "R18.4"),
+    V("loader strips one character too few", SR, "[os.path.splitext(os.path.split(x)[-1])[0][6:] for x in R_files]",
+      "[os.path.splitext(os.path.split(x)[-1])[0][5:] for x in R_files]", "fire", "R18.4"),
     V("iRvec dropped from the essential list", SR, "['num_wann', 'real_lattice', 'iRvec', 'periodic',", "['num_wann', 'real_lattice', 'periodic',",
       "fire", "R18.4"),
-    V("point group saved with the reciprocal lattice (seeded C18-m2)", "wannierberri/symmetry/point_symmetry.py",
+    V("Rvectors rebuilt without the centre shifts", SR, "                                     shifts_left_red=self.wannier_centers_red\n", "", "fire", "R18.4"),
+    V("point group saved with the reciprocal lattice (seeded C18-m2)", PS,
       "ret = dict(real_lattice=self.real_lattice,", "ret = dict(real_lattice=self.recip_lattice,", "fire", "R18.5"),
-    V("inversion sign not folded into the saved rotation", "wannierberri/symmetry/point_symmetry.py",
+    V("inversion sign not folded into the saved rotation", PS,
       "return dict(R=self.R * (-1 if self.Inv else 1), TR=self.TR)", "return dict(R=self.R, TR=self.TR)", "fire", "R18.5"),
+    V("operation i saved under the prefix of operation i+1", PS, "ret[self._symm_dict_prefix(i) + k] = v", "ret[self._symm_dict_prefix(i + 1) + k] = v",
+      "fire", "R18.5"),
     V("neutral: reader split via len()", HR, "nup = (data.shape[0] + 1) // 2", "nup = (len(data) + 1) // 2", "silent"),
     V("neutral: reader split spelled n - n//2", HR, "nup = (data.shape[0] + 1) // 2", "nup = data.shape[0] - data.shape[0] // 2", "silent"),
+    V("neutral: as_dict built from a display and update()", PS,
+      "        ret = dict(real_lattice=self.real_lattice,\n                   nsym=nsym)\n        for i, s in enumerate(self.symmetries):\n            for k, v in s.as_dict().items():\n                ret[self._symm_dict_prefix(i) + k] = v\n",
+      "        ret = {'real_lattice': self.real_lattice, 'nsym': nsym}\n        for i, s in enumerate(self.symmetries):\n            p = self._symm_dict_prefix(i)\n            ret.update({p + k: v for k, v in s.as_dict().items()})\n",
+      "silent"),
+    V("neutral: load order through dict.fromkeys", SR,
+      "        properties = [\"real_lattice\", \"wannier_centers_cart\"] + properties\n        keys_processed = set()\n        for key in properties:\n            if key in keys_processed:\n                continue\n",
+      "        for key in dict.fromkeys([\"real_lattice\", \"wannier_centers_cart\"] + properties):\n", "silent"),
 ]
